@@ -117,6 +117,17 @@ class Report(object):
         self.per_sub = {}     # sub -> evaluations
         self.notes = []
         self.harness_errors = []
+        self.nontrivial_extra = 0  # distinct-by-construction cases of enumerations
+
+    def count_many(self, sub, n_eval, n_nontrivial, label=None, sample=None):
+        """for enumerations whose cases are distinct by construction"""
+        self.evaluations += n_eval
+        self.per_sub[sub] = self.per_sub.get(sub, 0) + n_eval
+        key = "%s:%s" % (sub, label) if label else sub
+        self.classes[key] = self.classes.get(key, 0) + n_eval
+        self.nontrivial_extra += n_nontrivial
+        if sample is not None and key not in self.samples:
+            self.samples[key] = abbreviate(sample)
 
     def count(self, sub, case, label=None, nontrivial=True, h=None):
         self.evaluations += 1
@@ -135,6 +146,7 @@ class Report(object):
         self.evaluations += other.evaluations
         self.shrink_evaluations += other.shrink_evaluations
         self.nontrivial |= other.nontrivial
+        self.nontrivial_extra += other.nontrivial_extra
         for k, v in other.classes.items():
             self.classes[k] = self.classes.get(k, 0) + v
         for k, v in other.samples.items():
